@@ -34,7 +34,7 @@ UserMsgs(s, h, u) ==
 AdminMsgs(u) ==
        [type : {"UpdateOwner", "UpdateAttesterManager", "UpdatePauser", "UpdateTokenController"}, from : {u}, new : Users \cup {"GARBAGE"}]
   \cup [type : {"AcceptOwner"} \cup PauserTypes, from : {u}]
-  \cup [type : {"UpdateMaxMessageBodySize"}, from : {u}, size : {131, 200}]
+  \cup [type : {"UpdateMaxMessageBodySize"}, from : {u}, size : {131, 200, 3000000}]
   \cup [type : {"AddRemoteTokenMessenger"}, from : {u}, d : {"d1", "d3"}, addr : {M1, Zero32}]
   \cup [type : {"RemoveRemoteTokenMessenger"}, from : {u}, d : {"d1", "d3"}]
   \cup [type : {"EnableAttester", "DisableAttester"}, from : {u}, att : {A("k1"), A("k3"), A("k4"), [key |-> "k1", sp |-> "0x"]}]
